@@ -21,7 +21,7 @@ def sendLoopStmt : Stmt :=
 theorem send_loop (cfg : Cfg) (hsub : cfg.isSub = Gen.C17.isSub) :
     ∀ (script : List Ev) (fuel : Nat) (env : Env) (data acc st : Bytes),
       script.length + 1 ≤ fuel → env.lookup "p1" = some (.bytes data) →
-      toSend (exec cfg sendLoopStmt fuel none env ⟨st, acc, script⟩) = some (sendLoop data acc script) := by
+      toSend (exec cfg sendLoopStmt fuel none env ⟨st, acc, script, []⟩) = some (sendLoop data acc script) := by
   intro script
   induction script with
   | nil =>
@@ -191,11 +191,11 @@ structure EnvOK (env : Env) (size : Nat) (data : Bytes) : Prop where
 
 def innerRes (r : InnerOut × Bytes × Bytes × List Ev) (env : Env) (sent : Bytes) : Res :=
   match r with
-  | (.done, _, st, sc) => .normal env ⟨st, sent, sc⟩
-  | (.retry, _, st, sc) => .raise (.exc .osError true none) env ⟨st, sent, sc⟩
-  | (.fatal, _, st, sc) => .raise (.exc .osError false none) env ⟨st, sent, sc⟩
-  | (.timeout, _, st, sc) => .raise (.exc .socketTimeout false none) env ⟨st, sent, sc⟩
-  | (.scriptEnd, _, st, sc) => .scriptEnd ⟨st, sent, sc⟩
+  | (.done, _, st, sc) => .normal env ⟨st, sent, sc, []⟩
+  | (.retry, _, st, sc) => .raise (.exc .osError true none) env ⟨st, sent, sc, []⟩
+  | (.fatal, _, st, sc) => .raise (.exc .osError false none) env ⟨st, sent, sc, []⟩
+  | (.timeout, _, st, sc) => .raise (.exc .socketTimeout false none) env ⟨st, sent, sc, []⟩
+  | (.scriptEnd, _, st, sc) => .scriptEnd ⟨st, sent, sc, []⟩
 
 theorem cap_int (size len : Nat) (h : len < size) :
     (if (60000 : Int) ≤ (size : Int) - (len : Int) then (60000 : Int) else (size : Int) - (len : Int))
@@ -214,7 +214,7 @@ theorem inner_loop (cfg : Cfg) (size : Nat) :
     ∀ (script : List Ev) (fuel : Nat) (cur : Option Val) (env : Env) (data stream sent : Bytes),
       script.length + 1 ≤ fuel → EnvOK env size data →
       ∃ env', EnvOK env' size (innerSpec size data stream script).2.1 ∧
-        exec cfg innerStmt fuel cur env ⟨stream, sent, script⟩
+        exec cfg innerStmt fuel cur env ⟨stream, sent, script, []⟩
           = innerRes (innerSpec size data stream script) env' sent := by
   intro script
   induction script with
@@ -308,13 +308,13 @@ def InnerOK (cfg : Cfg) (size : Nat) (I : Stmt) : Prop :=
   ∀ (script : List Ev) (fuel : Nat) (cur : Option Val) (env : Env) (data stream sent : Bytes),
     script.length + 1 ≤ fuel → EnvOK env size data →
     ∃ env', EnvOK env' size (innerSpec size data stream script).2.1 ∧
-      exec cfg I fuel cur env ⟨stream, sent, script⟩ = innerRes (innerSpec size data stream script) env' sent
+      exec cfg I fuel cur env ⟨stream, sent, script, []⟩ = innerRes (innerSpec size data stream script) env' sent
 
 theorem old_loop_gen (cfg : Cfg) (hsub : cfg.isSub = Gen.C17.isSub) (size : Nat) (I : Stmt) (hI : InnerOK cfg size I) :
     ∀ (n : Nat) (script : List Ev), script.length = n →
     ∀ (fuel : Nat) (cur : Option Val) (env : Env) (data stream sent : Bytes),
       script.length + 1 ≤ fuel → EnvOK env size data →
-      toRecv (exec cfg (.while_ (.lit (.bool true)) (.try_ (.seq I oldRest) oldHandlers)) fuel cur env ⟨stream, sent, script⟩)
+      toRecv (exec cfg (.while_ (.lit (.bool true)) (.try_ (.seq I oldRest) oldHandlers)) fuel cur env ⟨stream, sent, script, []⟩)
         = some (recvLoop size data stream script) := by
   intro n
   induction n using Nat.strongRecOn with
@@ -357,7 +357,7 @@ theorem old_loop_gen (cfg : Cfg) (hsub : cfg.isSub = Gen.C17.isSub) (size : Nat)
 theorem old_loop (cfg : Cfg) (hsub : cfg.isSub = Gen.C17.isSub) (size : Nat)
     (script : List Ev) (fuel : Nat) (cur : Option Val) (env : Env) (data stream sent : Bytes)
     (hf : script.length + 1 ≤ fuel) (ok : EnvOK env size data) :
-    toRecv (exec cfg oldStmt fuel cur env ⟨stream, sent, script⟩) = some (recvLoop size data stream script) := by
+    toRecv (exec cfg oldStmt fuel cur env ⟨stream, sent, script, []⟩) = some (recvLoop size data stream script) := by
   rw [oldStmt_shape]
   exact old_loop_gen cfg hsub size innerStmt (inner_loop cfg size) script.length script rfl fuel cur env data stream sent hf ok
 
@@ -412,16 +412,16 @@ theorem waitSpec_len (size : Nat) (stream : Bytes) : ∀ (script : List Ev),
 
 def waitRes (r : WaitOut × Bytes × Bytes × List Ev) (env : Env) (sent : Bytes) : Res :=
   match r with
-  | (.ok, c, st, sc) => .ret (.bytes c) ⟨st, sent, sc⟩
-  | (.fall, _, st, sc) => .normal env ⟨st, sent, sc⟩
-  | (.fatal, _, st, sc) => .raise (.exc .connClosed false none) env ⟨st, sent, sc⟩
-  | (.timeout, _, st, sc) => .raise (.exc .pyroTimeout false none) env ⟨st, sent, sc⟩
-  | (.scriptEnd, _, st, sc) => .scriptEnd ⟨st, sent, sc⟩
+  | (.ok, c, st, sc) => .ret (.bytes c) ⟨st, sent, sc, []⟩
+  | (.fall, _, st, sc) => .normal env ⟨st, sent, sc, []⟩
+  | (.fatal, _, st, sc) => .raise (.exc .connClosed false none) env ⟨st, sent, sc, []⟩
+  | (.timeout, _, st, sc) => .raise (.exc .pyroTimeout false none) env ⟨st, sent, sc, []⟩
+  | (.scriptEnd, _, st, sc) => .scriptEnd ⟨st, sent, sc, []⟩
 
 def WaitOK (cfg : Cfg) (size : Nat) (W : Stmt) : Prop :=
   ∀ (script : List Ev) (fuel : Nat) (cur : Option Val) (env : Env) (stream sent : Bytes),
     script.length + 1 ≤ fuel → EnvOK env size [] →
-    ∃ env', exec cfg W fuel cur env ⟨stream, sent, script⟩ = waitRes (waitSpec size stream script) env' sent ∧
+    ∃ env', exec cfg W fuel cur env ⟨stream, sent, script, []⟩ = waitRes (waitSpec size stream script) env' sent ∧
       ((waitSpec size stream script).1 = .fall → EnvOK env' size (waitSpec size stream script).2.1)
 
 theorem wait_loop (cfg : Cfg) (hsub : cfg.isSub = Gen.C17.isSub) (size : Nat) : WaitOK cfg size waitStmt := by
@@ -528,7 +528,7 @@ theorem outer_wrap (cfg : Cfg) (hsub : cfg.isSub = Gen.C17.isSub) (fuel : Nat) (
 def OldOK (cfg : Cfg) (size : Nat) (O : Stmt) : Prop :=
   ∀ (script : List Ev) (fuel : Nat) (cur : Option Val) (env : Env) (data stream sent : Bytes),
     script.length + 1 ≤ fuel → EnvOK env size data →
-    toRecv (exec cfg O fuel cur env ⟨stream, sent, script⟩) = some (recvLoop size data stream script)
+    toRecv (exec cfg O fuel cur env ⟨stream, sent, script, []⟩) = some (recvLoop size data stream script)
 
 theorem recv_gen (cfg : Cfg) (hsub : cfg.isSub = Gen.C17.isSub) (size : Nat) (W O : Stmt)
     (hW : WaitOK cfg size W) (hO : OldOK cfg size O) (stream : Bytes) (script : List Ev) :
